@@ -427,6 +427,10 @@ def sp_forall(interp, st, args, kwargs, node, exists=False):
         conds.append(v >= to_z3(as_int(lo)))
         conds.append(v < to_z3(as_int(hi)))
     rng = z3.And(*conds) if conds else z3.BoolVal(True)
+    for r in ranges:
+        # a range that is empty on its face: nothing to say (and the body may not even be evaluable, e.g. an index into an empty list)
+        if r is not None and all(isinstance(as_int(b), int) for b in r) and as_int(r[1]) <= as_int(r[0]):
+            return False if exists else True
     st.guards.append(rng)
     try:
         body = _call_pred(interp, st, clo, vars_)
@@ -765,7 +769,119 @@ def sp_occurrences(interp, st, args, kwargs, node):
     return M.m_list_count(interp, st, args[0], None, [args[1]], {}, node)
 
 
+def _nd3_terms(conn, t):
+    from .npmodel4 import nd3_fns
+
+    fd, fx, fy, flat = nd3_fns()
+    R, C = to_z3(as_int(conn.dims[1])), to_z3(as_int(conn.dims[2]))
+    tz = to_z3(as_int(t))
+    return fd(tz, R, C), fx(tz, R, C), fy(tz, R, C)
+
+
+def _indicator(conn):
+    """the row-major 0/1 sequence of a (D, R, C) bool grid: F[k] = 1 iff the k-th cell in C order is True"""
+    k = z3.Int(V.fresh_name("fk"))
+    d, x, y = _nd3_terms(conn, k)
+    return z3.Lambda([k], z3.If(conn.select([d, x, y]), 1, 0))
+
+
+def _conn_of(v):
+    return v.fields["connection_list"] if isinstance(v, Rec) else v
+
+
+def sp_bit_at(interp, st, args, kwargs, node):
+    """bit_at(conn, t): the t-th cell of a (D, R, C) bool grid in row-major order"""
+    conn = _conn_of(args[0])
+    d, x, y = _nd3_terms(conn, args[1])
+    return conn.select([d, x, y])
+
+
+def sp_nd3(which):
+    def fn(interp, st, args, kwargs, node):
+        """nd3_d / nd3_x / nd3_y (conn, t): the index triple of the t-th cell in row-major order"""
+        return _nd3_terms(_conn_of(args[0]), args[1])[which]
+
+    return fn
+
+
+def sp_flat3(interp, st, args, kwargs, node):
+    """flat3(conn, d, x, y): the row-major position of cell (d, x, y)"""
+    from .npmodel4 import nd3_fns
+
+    conn = _conn_of(args[0])
+    R, C = to_z3(as_int(conn.dims[1])), to_z3(as_int(conn.dims[2]))
+    return nd3_fns()[3](to_z3(as_int(args[1])), to_z3(as_int(args[2])), to_z3(as_int(args[3])), R, C)
+
+
+def sp_true_before(interp, st, args, kwargs, node):
+    """true_before(conn, t): how many of the first t cells (row-major order) are True - the prefix sum of the indicator sequence"""
+    conn = _conn_of(args[0])
+    F = _indicator(conn)
+    # the lambda is rebuilt per call: name it once per grid so that every mention is the same term
+    key = ("indicator", conn.arr.get_id())
+    cache = interp.ctx.__dict__.setdefault("indicator_cache", {})
+    if key not in cache:
+        nm = z3.Const(V.fresh_name("indicator"), z3.ArraySort(z3.IntSort(), z3.IntSort()))
+        k = z3.Int(V.fresh_name("fk"))
+        d, x, y = _nd3_terms(conn, k)
+        cache[key] = (nm, z3.ForAll([k], z3.Select(nm, k) == z3.If(conn.select([d, x, y]), 1, 0), patterns=[z3.Select(nm, k)]))
+    nm, defn = cache[key]
+    # closed, global definitions: stated once and unguarded (not under the binder / branch in which the term happens to be mentioned)
+    done = st.env.setdefault("__global_axioms__", set())
+    if nm.get_id() not in done:
+        done.add(nm.get_id())
+        st.pc.append(defn)
+        st.tagmap[defn.get_id()] = "axiom:indicator"
+        for ax in M.psum_axioms(nm):
+            st.pc.append(ax)
+            st.tagmap[ax.get_id()] = "axiom:psum"
+    return M.sumfn()(nm, to_z3(as_int(args[1])))
+
+
+def sp_true_before_lemma(interp, st, args, kwargs, node):
+    """LEMMA + definition: true_before(conn, .) is nondecreasing (psum_monotone: prefix sums of a non-negative sequence), and
+    over all D*R*C cells it is count(conn) - the meaning of the ghost count: the number of True cells"""
+    LEMMAS_USED.add("psum_monotone: prefix sums of non-negative ints are nondecreasing (simple induction)")
+    LEMMAS_USED.add("count-definition: count(g) of a bool grid is the number of True cells = the row-major prefix sum of its indicator over all cells")
+    conn = _conn_of(args[0])
+    if conn.count is None:
+        raise Outside("true_before_lemma on a grid without ghost count", node)
+    tb0 = sp_true_before(interp, st, [conn, 0], {}, node)
+    nm = tb0.arg(0)
+    f = M.sumfn()
+    a, b = z3.Int(V.fresh_name("a")), z3.Int(V.fresh_name("b"))
+    N = to_z3(as_int(conn.dims[0])) * to_z3(as_int(conn.dims[1])) * to_z3(as_int(conn.dims[2]))
+    mono = z3.ForAll([a, b], z3.Implies(z3.And(0 <= a, a <= b), f(nm, a) <= f(nm, b)), patterns=[z3.MultiPattern(f(nm, a), f(nm, b))])
+    # corollary of the recursion and monotonicity: a True cell at position t has fewer True cells before it than there are in total
+    t = z3.Int(V.fresh_name("t"))
+    room = z3.ForAll([t], z3.Implies(z3.And(0 <= t, t < N), f(nm, t) + z3.Select(nm, t) <= f(nm, N)), patterns=[f(nm, t)])
+    return z3.And(mono, room, f(nm, N) == to_z3(conn.count), f(nm, 0) == 0)
+
+
+def sp_nd3_cells_lemma(interp, st, args, kwargs, node):
+    """LEMMA (lemmas/Unravel.lean nd3_b2): every in-range cell (d, x, y) of a (D, R, C) grid has a row-major position flat3(d, x, y) within [0, D*R*C)
+    whose index triple is (d, x, y) again - instantiated wherever the cell conn[d, x, y] itself is mentioned"""
+    from .npmodel4 import nd3_fns
+
+    LEMMAS_USED.add("nd3: row-major index algebra of a 3-d shape (k <-> (k / C / R, (k / C) % R, k % C))")
+    conn = _conn_of(args[0])
+    fd, fx, fy, flat = nd3_fns()
+    D, R, C = (to_z3(as_int(v)) for v in conn.dims)
+    d, x, y = (z3.Int(V.fresh_name(n)) for n in ("ld", "lx", "ly"))
+    f = flat(d, x, y, R, C)
+    return z3.ForAll([d, x, y], z3.Implies(z3.And(d >= 0, d < D, x >= 0, x < R, y >= 0, y < C),
+                                           z3.And(f >= 0, f < D * R * C, fd(f, R, C) == d, fx(f, R, C) == x, fy(f, R, C) == y)), patterns=[conn.select([d, x, y])])
+
+
 SPEC_FUNCTIONS = {
+    "nd3_cells_lemma": sp_nd3_cells_lemma,
+    "bit_at": sp_bit_at,
+    "nd3_d": sp_nd3(0),
+    "nd3_x": sp_nd3(1),
+    "nd3_y": sp_nd3(2),
+    "flat3": sp_flat3,
+    "true_before": sp_true_before,
+    "true_before_lemma": sp_true_before_lemma,
     "first_index": sp_first_index,
     "occurrences": sp_occurrences,
     "unravel_row": _unravel(0),
